@@ -32,9 +32,8 @@ type c29Case struct {
 	Topo   topoSpec  `json:"topo"`
 	IDBase uint64    `json:"id_base"` // the process-wide ID generator starts here
 	Msgs   []msgSpec `json:"msgs"`
-	// Ckpt != nil: after the plain run the case is run again inside a real
-	// simulation.Simulation, checkpointed at a cut, rebuilt in another process,
-	// loaded and resumed (see c29ckpt_test.go).
+	// Ckpt != nil: after the plain run the case is run again, checkpointed at a
+	// cut, rebuilt in another process, loaded and resumed (see c29ckpt_test.go).
 	Ckpt *ckptSpec `json:"ckpt,omitempty"`
 }
 
@@ -57,6 +56,7 @@ func genC29(rt *rapid.T) c29Case {
 			Mode:  rapid.SampledFrom([]string{"reassembly", "reassembly", "reassembly", "any"}).Draw(rt, "cutMode"),
 			Sel:   rapid.IntRange(0, 999).Draw(rt, "cutSel"),
 			Plain: rapid.Bool().Draw(rt, "plainReg"),
+			Sim:   rapid.IntRange(0, simOneIn()-1).Draw(rt, "realSim") == 0,
 		}
 	}
 	return c
@@ -364,7 +364,8 @@ func TestC29Delivery(t *testing.T) {
 			"traffic: 1-300 messages (case capped at 1500 flits), src!=dst port (also on the same device), 0-4096 bytes, 5 traffic classes, 1/3 with RspTo (earlier message's ID or arbitrary), optional hotspot destination, message IDs from the library generator started at {0,1000,2^32,2^53+7,2^63+11}. "+
 			"Oracle: every object delivered at a device port is a packetization.AssembledMsg whose MsgMeta equals a sent message's (all six fields) and whose Dst is that port, at most once per ID; "+
 			"liveness (mesh, and every topology whose switch multigraph is a tree): when the engine is idle every message was delivered and every script fully sent. "+
-			"Checkpoint leg (1 case in 5, classes 'ckpt:*'): the same network + devices (modeling.Components whose whole state - script, position, counters - is plain-JSON State) + traffic are built inside a real simulation.Simulation (connector registrar = the simulation; default registration or, 50%, without the idle DBTracer hooks), run to a cut, saved with Simulation.SaveCheckpoint and terminated; another process (re-exec of the test binary, replaced every 12 jobs) builds the same simulation again from the case, schedules nothing, LoadCheckpoint, runs until idle. "+
+			"Checkpoint leg (1 case in 3, classes 'ckpt:*'): the same network + devices (modeling.Components whose whole state - script, position, counters - is plain-JSON State) + traffic are built again, run to a cut, saved and torn down; another process (re-exec of the test binary, replaced every 40 jobs) builds the same assembly again from the case, schedules nothing, loads, runs until idle. "+
+			"1 in 8 of these (class 'ckpt:simulation.Simulation/*') inside a real simulation.Simulation (connector registrar = the simulation; default registration or, 50%, without the idle DBTracer hooks) with Simulation.SaveCheckpoint/LoadCheckpoint; the others (class 'ckpt:entity-level') on a registrar that keeps the inventory a Simulation keeps (engine, ID generator, every component/port/connection in registration order) and, like Simulation.Save/LoadCheckpoint, lets every entity write/read its own payload through its SaveCheckpoint/LoadCheckpoint after checking that the saved and rebuilt entity sets are equal (no archive file, no recorders: building+terminating a Simulation costs 100-300 ms). "+
 			"The cut is one of the uninterrupted run's own event times (RunUntil(t) handles all events <= t): 3 in 4 drawn among the instants at which some endpoint's State.AssemblingMsgs holds a message with some but not all flits arrived (measured again at the cut in the simulation: class 'ckpt:cut-mid-reassembly'), 1 in 4 among all event times. "+
 			"The same oracle judges the device-port events before the cut followed by those after the resume (exactly once, six metadata fields, right port, nothing else; everything delivered and every script finished for mesh/tree), plus: devices retrieved exactly the delivered messages. "+
 			"Additionally (signature prefix 'ckpt-vs-uninterrupted:', C06's promise for this assembly rather than C29's): the same set of messages is delivered, every device port sees the same sequence of sends/deliveries at the same virtual times, and the engine goes idle at the same time as in the uninterrupted run. "+
